@@ -160,9 +160,13 @@ func (p pacedFS) Rename(o, n string) error    { defer p.nap(); return os.Rename(
 func (p pacedFS) Remove(x string) error       { defer p.nap(); return os.Remove(x) }
 func (p pacedFS) RemoveAll(x string) error {
 	// entry by entry, like rm -r
-	ents, _ := os.ReadDir(x)
-	for _, e := range ents {
-		_ = p.RemoveAll(filepath.Join(x, e.Name()))
+	var names []string
+	if d, err := os.Open(x); err == nil {
+		names, _ = d.Readdirnames(-1)
+		d.Close()
+	}
+	for _, n := range names {
+		_ = p.RemoveAll(filepath.Join(x, n))
 	}
 	defer p.nap()
 	return os.Remove(x)
